@@ -47,6 +47,9 @@ impl Drop for UserTls {
             }
             let r = std::panic::catch_unwind(std::panic::AssertUnwindSafe(|| w.drop_cc(cc, o, "a Cc held by a user thread-local during thread teardown")));
             if let Err(p) = r {
+                if p.is::<Injected>() {
+                    continue; // the thread's own callback panicked (injected) and the program caught it: nothing wrong
+                }
                 w.fail("O-THREAD.teardown-panic", format!("dropping a Cc from a thread-local destructor panicked: {}", crate::exec::panic_message(&p)));
             }
         }
@@ -135,7 +138,7 @@ pub fn run_threads(prog: &Program, prop: &'static str, verbose: bool) -> RunResu
     let dead_flag = Arc::new(std::sync::atomic::AtomicBool::new(false));
     let mut handles = Vec::new();
     // worlds outlive their threads' teardown: they are owned here
-    let worlds: Vec<Box<World>> = prog.threads.iter().map(|tp| Box::new(World::new(tp.knobs, vec![], prop, false))).collect();
+    let worlds: Vec<Box<World>> = prog.threads.iter().map(|tp| Box::new(World::new(tp.knobs, tp.faults.clone(), prop, false))).collect();
     let world_ptrs: Vec<usize> = worlds.iter().map(|w| &**w as *const World as usize).collect();
     for (i, tp) in prog.threads.iter().cloned().enumerate() {
         let baton = baton.clone();
@@ -196,7 +199,7 @@ pub fn run_threads(prog: &Program, prop: &'static str, verbose: bool) -> RunResu
                     };
                     for r in rest {
                         if r % 2 == 0 && w.m.borrow().root_obj[r].is_some() && !w.dead.get() {
-                            w.drop_root_checked(r);
+                            w.step(&Op::new(OpCode::Drop, &[r as i64])); // (a planned callback panic may fire here: step() recovers)
                         }
                     }
                     w.after_op(false);
